@@ -132,6 +132,22 @@ class Interp:
             q = Path(p.env, p.counters, p.pc)
             q.env[s.targets[0].id] = self.expr(s.value, p.env)
             return [q]
+        if (isinstance(s, ast.Assign) and len(s.targets) == 1 and isinstance(s.targets[0], ast.Tuple)
+                and all(isinstance(t, ast.Name) for t in s.targets[0].elts)):
+            names = [t.id for t in s.targets[0].elts]
+            v = s.value
+            vals = None
+            if isinstance(v, ast.Call) and self._callname(v) == "divmod" and len(v.args) == 2 and len(names) == 2:
+                fd = ast.BinOp(left=v.args[0], op=ast.FloorDiv(), right=v.args[1])
+                md = ast.BinOp(left=v.args[0], op=ast.Mod(), right=v.args[1])
+                vals = [self.expr(fd, p.env), self.expr(md, p.env)]
+            elif isinstance(v, ast.Tuple) and len(v.elts) == len(names):
+                vals = [self.expr(e, p.env) for e in v.elts]
+            if vals is not None:
+                q = Path(p.env, p.counters, p.pc)
+                for nme, val in zip(names, vals):
+                    q.env[nme] = val
+                return [q]
         if isinstance(s, ast.Expr):
             v = s.value
             if isinstance(v, ast.Constant):
